@@ -17,6 +17,11 @@ SELF_GUARDING = {
 }
 
 
+SELF_GUARDING_UNTESTED = {
+    'mzd_row_add_offset': {'dst': 'dst is the same word offset as src in another row of the same matrix; rowstride is even (rule A2), so both share their phase'},
+}
+
+
 def _is_alignment_test(e):
     """((unsigned long)(p)) % 16  ->  p expression, else None"""
     e = strip(e)
@@ -61,6 +66,46 @@ def rule_D0(ctx, prog, label, rule='D0'):
         rr.ob(ok, dict(function=name, role='self-guarding', phase_tests=sorted(set(tests)), reason=SELF_GUARDING.get(name)),
               Finding(rule, '%s|%s' % (rule, name), casts[0].loc, name,
                       '%s dereferences __m128i* but is neither a known phase-assuming kernel nor tests its operands\' phases' % name, {}, label))
+        if name not in SELF_GUARDING:
+            continue
+        # every word pointer that is reinterpreted as __m128i* has its own phase test on every path to the cast
+        from .cfg import cfg_of
+        g = cfg_of(f)
+        dom = g.dominators()
+        exempt = SELF_GUARDING_UNTESTED.get(name, {})
+        for c in casts:
+            src = strip(c.kids[0], casts=True)
+            if src.kind != 'DeclRefExpr':
+                continue
+            if 'eof' in pp(c) or src.kind != 'DeclRefExpr':
+                pass
+            v = src.ref
+            par = None
+            for cn in g.nodes:
+                if cn.ast is not None and any(x is c for x in cn.ast.walk()):
+                    par = cn
+            if par is None:
+                continue
+            # the end-of-loop sentinel  (__m128i *)((unsigned long)(p + wide) & ~0xF)  is an address computation, not an access
+            inner = strip(c.kids[0])
+            if inner.kind == 'BinaryOperator' or (inner.kind == 'ParenExpr'):
+                continue
+            rr.instances += 1
+            tested = False
+            for cn in g.nodes:
+                if cn.kind != 'branch' and cn.kind != 'stmt':
+                    continue
+                if cn.ast is None or cn.id not in dom.get(par.id, ()):
+                    continue
+                for n in cn.ast.walk():
+                    pt = _is_alignment_test(n)
+                    if pt is not None and pp(strip(pt, casts=True)) == v:
+                        tested = True
+            if not tested and v in exempt:
+                tested = True
+            rr.ob(tested, dict(function=name, pointer=v, verdict='phase of `%s` is tested on every path to its reinterpretation as __m128i*' % v if v not in exempt else exempt[v]),
+                  Finding(rule, '%s|%s|untested|%s' % (rule, name, v), c.loc, name,
+                          '`%s` is reinterpreted as __m128i* in %s without a 16-byte phase test of `%s` on the path: an operand at an odd word offset makes the aligned access fault' % (v, name, v), {}, label))
     rr.require_floor(10, 'functions with vector dereferences')
     return rr
 
